@@ -1977,11 +1977,12 @@ class GroupBy:
 
         col_names = self._col_names_from_value_names(value_names)
 
-        result = (
-            pd.DataFrame(dict(zip(col_names, value_list)), copy=False)
-            .iloc[ilocs]
-            .set_index(out_index)
-        )
+        result = pd.DataFrame(dict(zip(col_names, value_list)), copy=False).iloc[ilocs]
+        if len(result) == len(self):
+            # when every row is taken pandas returns a view of the frame, i.e. of the
+            # caller's arrays: the result must own its data
+            result = result.copy()
+        result = result.set_index(out_index)
         result = self._maybe_squeeze_to_1d(
             result, values=values, n_values=len(value_names)
         )
